@@ -175,6 +175,9 @@ _spec_of('tables')['fragments'] = {
     'replication_is_delayed': {'class': 'TableR', 'method': 'lookup', 'expr': 'Compare', 'params': {'id_': 'int'}},
 }
 
+_spec_of('tables')['iter_builder'] = {'func': '_descriptors_from_ids_iter'}
+_spec_of('tables')['imports'] = ['BufrModel.Gen.PyDescriptors']
+
 _spec_of('dataquery')['small_methods'] = {
     'NodePath': {'attrs': {'path_string': 'str', 'subset_slice': 'opt[intorslice]', 'components': 'list[PathComponent]'},
                  'methods': {'slice_to_str': {'params': {'slc': 'opt[intorslice]'}},
@@ -2931,6 +2934,9 @@ class ModuleGen(object):
                 st.append('  %s : %s' % (lean_ident(k), lean_type(attrs[k])))
             func_texts.append('\n'.join(st))
             func_texts.extend(texts)
+        if spec.get('iter_builder'):                            # w5-smallsrc: tables.py template builder
+            from harness import py2lean_small
+            py2lean_small.render_iter_builder(self, spec, func_texts)
         if spec.get('small_methods'):                           # w5-smallsrc: read-only methods
             from harness import py2lean_small
             py2lean_small.render_small_methods(self, spec, func_texts)
@@ -2946,7 +2952,7 @@ class ModuleGen(object):
         head = ['/- GENERATED by harness/py2lean.py from %s — do not edit; rewritten on every check.' % spec['file'],
                 '   git blob of the source file: %s' % self.mod.blob,
                 '   Python constructs and their Lean renderings: notes/Tie.md. -/',
-                'import BufrModel.Gen.PyPrelude',
+                'import BufrModel.Gen.PyPrelude'] + ['import %s' % m for m in spec.get('imports', [])] + [
                 'set_option linter.unusedVariables false',
                 'namespace PyGen.%s' % spec['module'], '']
         for m2, (gm, names) in sorted(getattr(self, 'opened', {}).items()):   # (w5-codersrc) imported constants
